@@ -1,22 +1,77 @@
-// nilgen translates package /repo/parser into the nil-flow graphs used by properties C01 (no nil
-// dereference in Parse) and C03 (no typed nil in the tree): coq/Gen/ParserNil.v (a term
-// `parser_nil : prog` of DC.Nil.NilLang with an untrusted certificate, the site tables and the
-// inventories of index / assertion / conversion / panic sites), coq/Gen/ParserNilAllowed.v (the
-// reviewed sites of checks/c01_reviewed_sites.json), coq/Gen/AstSchema.v (the struct types of
-// package ast) and build/nilgen_report.json.
+// nilgen translates package /repo/parser into the nil-flow graphs used by properties C01 (Parse never
+// dereferences nil) and C03 (no typed nil in the tree). It writes
 //
-// Files: load.go (type-checked package, ast sources), build.go/expr.go/stmt.go/func.go (Go AST -> graph),
-// fields.go (pseudo-variables for fields of local pointers), analyze.go (certificate: per-node sets and
-// function specs by greatest fixpoint, replay of the Coq checker), inventory.go (index, assertion,
-// panic inventories), schema.go (AstSchema), emit.go (Coq and JSON output).
+//	coq/Gen/ParserNil.v         parser_nil : prog of DC.Nil.NilLang, the C01 reading (the whole run): one graph per
+//	                            function reachable from Parse, with an UNTRUSTED certificate: per node the variables
+//	                            that are certainly not nil / not a typed nil, per function what callers guarantee
+//	                            for the parameters and what the function guarantees for its results; the table of
+//	                            uncertified sites
+//	coq/Gen/ParserNilC03.v      parser_nil_c03, the C03 reading: the same translation except that recording a parse
+//	                            error (p.errors = append(p.errors, ..)) is IHalt -- C03 speaks about runs that return
+//	                            a nil error -- with its own certificate, conv_sites and result_stores
+//	coq/Gen/ParserNilInv.v      the inventories index_sites / assert_sites / panic_sites
+//	coq/Gen/ParserNilAllowed.v  the reviewed sites of checks/c01_reviewed_sites.json matched against this program
+//	coq/Gen/AstSchema.v         the struct types of package ast as encoding/json sees them
+//	build/nilgen_report.json    everything above plus, for every uncertified site, the path that makes the
+//	                            operand possibly nil
+//
+// The certificate is checked, not trusted, by DC.Nil.NilCheck.check_prog inside the Coq kernel
+// (Properties/C01_nil.v, C03_nil.v). What IS trusted is the translation; its rules:
+//
+//   - Variables are the parameters (receiver first), results, locals and temporaries of pointer,
+//     interface, slice, map, chan or func type whose address is never taken. Everything else that can
+//     be nil (heap cells, package-level variables, escaped locals) is read as Unknown.
+//   - Every evaluation that dereferences becomes IUse: method call on an interface, field access or
+//     assignment through a pointer, *p, &p.f, a method of another package called through a pointer
+//     (methods of package ast only if their body mentions the receiver), a value-receiver method called
+//     through a pointer, x.(T) without comma-ok, a write to a map, a call of a function value.
+//     len, cap, range, append, indexing and slicing of nil slices do not dereference (indexing is
+//     inventoried separately).
+//   - Bool results of functions of package parser are model values too (false = nil, true = usable), so that
+//     `if !p.expect(..) { return nil }` is an IGuard on the result.
+//   - Conditions are control flow: && || ! as branches, x == nil / x != nil as IGuard,
+//     v, ok := x.(T) followed (through joins only) by a test of ok as ITypeTest, type switches as chains
+//     of ITypeTest, everything else as IBranch (both ways possible). The reflect idiom of
+//     parseStatement (`if v := reflect.ValueOf(x); x == nil || (v.Kind() == reflect.Ptr && v.IsNil())`)
+//     is RNormalize followed by IGuard.
+//   - Calls of functions of package parser are ICall (the callee's graph runs on an explicit stack);
+//     results of other functions are Unknown (dirty for interfaces) except a short list of functions
+//     known to return usable values (fmt.Errorf, lexer.New, ...). There are no function values, closures,
+//     defer, go or recover in the package (anything of the kind is a translation problem, and
+//     translation_problems must be empty).
+//   - Heap model (fields.go): a heap cell is not a variable. Cells are partitioned into classes
+//     ("field T.F", "elements of []E", other interface cells by type). Every store into a class is an
+//     IStore obligation and loads are translated by what the obligations of the class guarantee:
+//     strict (stores usable values only; loads are usable), clean (no typed nil stored; loads are never
+//     typed nils), dirty (anything; loads may be typed nils of the types listed in p_tn). A class is
+//     strict/clean only if cells of it cannot come into being without a store (no make([]E, n) with n > 0,
+//     no arrays, no re-slicing upwards, every composite literal of T sets F and T is never
+//     zero-initialised). Which classes are strict/clean is decided by the translator (start optimistic,
+//     drop a class when one of its stores is not certified); the Coq side re-checks every store.
+//   - Pseudo-variables x.F (x a local pointer variable, F a pointer/interface/map field) mirror a heap
+//     cell across statements: set to Unknown at entry, when x is assigned, when T.F is assigned through
+//     another path, and after every call whose callee (transitively) assigns T.F -- unless x always holds
+//     an object allocated in this function that never escapes before return (fresh local).
+//
+// Files: load.go (type-checked package, ast sources, type numbering), build.go (graph data, sites,
+// conversions, stores), expr.go (expressions, calls, conditions), stmt.go (statements, assignments, the
+// reflect idiom), func.go (one function: two passes, jump threading of comma-ok booleans, numbering),
+// fields.go (field writes, pseudo-variables, fresh locals, strict classes), analyze.go (certificate by
+// greatest fixpoint, replay of the Coq checker), paths.go (why a variable may be nil), inventory.go
+// (index / assertion / panic inventories and their guards), schema.go (AstSchema), emit.go (reviewed
+// list, Coq and JSON output), dump.go (debug output). selftest/mutations.py re-introduces the fixed
+// defects and some new ones in a scratch copy of /repo and checks that an obligation breaks.
 //
 // Usage: nilgen -repo /repo -out /verif/coq/Gen -report /verif/build/nilgen_report.json
 //
-//	-allow file   reviewed sites (default /verif/checks/c01_reviewed_sites.json)
-//	-v            print the uncertified sites
+//	-allow file     reviewed sites (default /verif/checks/c01_reviewed_sites.json)
+//	-v              print the open sites, the class decisions and the translation problems
+//	-dump fn        print the graph of a function with its certificate
+//	-texts fn       print the statement / condition texts of a function (for `context` of reviewed entries)
+//	-whywrites fn:pkg.Type.Field   a call chain from fn to an assignment of the field
 //
-// Exit status 0 when the files were written (also when obligations fail: then Properties/C01_nil.v
-// or C03_nil.v does not compile), 2 on a fatal error.
+// Exit status 0 when the files were written (also when obligations fail: then Properties/C01_nil.v or
+// C03_nil.v does not compile and the report has certified_c01/certified_c03 = false), 2 on a fatal error.
 package main
 
 import (
@@ -53,6 +108,8 @@ func main() {
 	entryName := flag.String("entry", "Parse", "entry function")
 	verbose := flag.Bool("v", false, "print uncertified sites")
 	dumpFn := flag.String("dump", "", "debug: print the graph of a function")
+	dumpC03 := flag.Bool("c03", false, "debug: -dump prints the graph of the C03 reading")
+	textsFn := flag.String("texts", "", "debug: print the statement / condition texts of a function (for the context field of reviewed entries)")
 	whyW := flag.String("whywrites", "", "debug: fn:pkg.Type.Field -- a call chain from fn to an assignment of the field")
 	flag.Parse()
 
@@ -90,13 +147,93 @@ func main() {
 	for i, fi := range a.funcs {
 		fi.id = i
 	}
-	// strict cell classes: start from all candidates, drop a class when one of its stores cannot be certified
 	allow := loadAllow(*allowFile)
+	allow.validate(pk)
+	if *textsFn != "" {
+		probe := &allowList{Use: []*allowEntry{{Key: "parser|" + *textsFn + "|x", Context: []string{"\x00"}}}, use: map[string]*allowEntry{}, store: map[string]*allowEntry{}}
+		probe.dump = true
+		probe.validate(pk)
+	}
+	inv := pk.inventories(a)
+	// two readings: C01 (the whole run) and C03 (runs are cut at the first recorded parse error)
+	var results [2]*progResult
+	for mode := 0; mode < 2; mode++ {
+		c03 := mode == 1
+		rounds, pruned := a.runMode(allow, c03)
+		if *dumpFn != "" && (c03 == *dumpC03) {
+			if fi := pk.funcs[*dumpFn]; fi != nil && fi.g != nil {
+				a.dump(fi)
+			}
+		}
+		if *whyW != "" && !c03 {
+			if i := strings.Index(*whyW, ":"); i > 0 {
+				if fi := pk.funcs[(*whyW)[:i]]; fi != nil {
+					pk.whyWrites(fi, (*whyW)[i+1:])
+				}
+			}
+		}
+		file, name := "ParserNil.v", "parser_nil"
+		if c03 {
+			file, name = "ParserNilC03.v", "parser_nil_c03"
+		}
+		results[mode] = a.emitProgram(filepath.Join(*out, file), name, allow, c03, rounds, pruned)
+	}
+	res := a.emitRest(*out, *rep, allow, inv, results[0], results[1])
+	if *verbose {
+		sort.Strings(res.lines)
+		for _, l := range res.lines {
+			fmt.Println(l)
+		}
+		for _, r := range results {
+			tag := "c01"
+			if r.c03 {
+				tag = "c03"
+			}
+			for _, d := range r.decisions {
+				fmt.Println(tag, "class decision:", d)
+			}
+			fmt.Println(tag, "strict classes:", strings.Join(r.strict, " "))
+			fmt.Println(tag, "dirty classes:", strings.Join(r.dirty, " "))
+			fmt.Println(tag, "typed-nil types:", strings.Join(r.tnNames, " "))
+			for _, p := range r.problems {
+				fmt.Println(tag, "problem:", p)
+			}
+		}
+	}
+	for _, r := range results {
+		tag := "C01 reading"
+		if r.c03 {
+			tag = "C03 reading"
+		}
+		fmt.Printf("nilgen %s: %d functions, %d nodes (+%d dead), use sites %d = %d certified + %d reviewed + %d open, store obligations %d = %d certified + %d reviewed + %d open, conv %d (%d open), %d problems, %d rounds\n",
+			tag, len(a.funcs), r.nodes, r.pruned, r.useTotal, r.useCert, r.useReviewed, r.useOpen, r.storeTotal, r.storeCert, r.storeReviewed, r.storeOpen,
+			r.convTotal, r.convOpen, len(r.problems), r.rounds)
+	}
+	fmt.Printf("nilgen: index %d (%d open), assert %d (%d open), panic %d (%d open)\n",
+		res.indexTotal, res.indexOpen, res.assertTotal, res.assertOpen, res.panicTotal, res.panicOpen)
+}
+
+// runMode builds and certifies the program of one reading
+func (a *analysis) runMode(allow *allowList, c03 bool) (rounds, pruned int) {
+	pk := a.pk
+	pk.errHalts = c03
+	pk.problems = nil
+	pk.checkForms()
+	pk.typeIDs, pk.typeNames = nil, nil
+	a.demoted = nil
+	// strict cell classes: start from all candidates, drop a class when one of its stores cannot be certified
 	pk.strict = pk.strictCandidates(a.funcs)
 	pk.dirty = map[string]bool{}
-	rounds := 0
+	pk.tn = map[int]bool{}
 	for {
 		a.sites = nil
+		n0 := len(pk.problems)
+		_ = n0
+		pk.problems = nil
+		pk.checkForms()
+		pk.typeIDs, pk.typeNames = nil, nil
+		tnNames := map[string]bool{}
+		_ = tnNames
 		for _, fi := range a.funcs {
 			fi.g = pk.buildFunc(fi)
 		}
@@ -113,7 +250,7 @@ func main() {
 			if s.kind == "store" && s.node.strict && !a.siteCertified(s) && pk.strict[s.class] {
 				drop[s.class] = true
 				demoted = true
-				a.demoted = append(a.demoted, fmt.Sprintf("%s: %s (%s)", s.class, s.key, pk.posString(s.pos)))
+				a.demoted = append(a.demoted, fmt.Sprintf("not strict: %s: %s (%s)", s.class, s.key, pk.posString(s.pos)))
 			}
 		}
 		for c := range drop {
@@ -123,59 +260,24 @@ func main() {
 			if s.kind == "store" && s.node.mode == storeClean && !a.siteCertified(s) && !pk.dirty[s.class] && !allow.cleanReviewed(s.key) {
 				pk.dirty[s.class] = true
 				demoted = true
-				a.demoted = append(a.demoted, fmt.Sprintf("%s dirty: %s (%s)", s.class, s.key, pk.posString(s.pos)))
+				a.demoted = append(a.demoted, fmt.Sprintf("dirty: %s: %s (%s)", s.class, s.key, pk.posString(s.pos)))
+			}
+		}
+		// pointer types of which a typed nil may be created (type numbers are stable: the graphs are rebuilt
+		// in the same order)
+		for _, fi := range a.funcs {
+			for _, n := range fi.g.nodes {
+				if n.kind == kSet && n.rhs == rConv && n.visited && !n.nn.has(n.y) && !pk.tn[n.ptype] {
+					pk.tn[n.ptype] = true
+					demoted = true
+					a.demoted = append(a.demoted, fmt.Sprintf("typed nil possible: %s (%s %s)", pk.typeNames[n.ptype], fi.name, pk.posString(n.pos)))
+				}
 			}
 		}
 		if !demoted {
 			break
 		}
-		pk.problems = nil
-		pk.checkForms()
 	}
-	if *dumpFn != "" {
-		if fi := pk.funcs[*dumpFn]; fi != nil && fi.g != nil {
-			a.dump(fi)
-		}
-	}
-	if *whyW != "" {
-		if i := strings.Index(*whyW, ":"); i > 0 {
-			if fi := pk.funcs[(*whyW)[:i]]; fi != nil {
-				pk.whyWrites(fi, (*whyW)[i+1:])
-			}
-		}
-	}
-	inv := pk.inventories(a)
-	res := a.emitAll(*out, *rep, allow, inv, rounds)
-	if *verbose {
-		sort.Strings(res.lines)
-		for _, l := range res.lines {
-			fmt.Println(l)
-		}
-	}
-	fmt.Printf("nilgen: %d functions, %d nodes, %d use sites (%d certified, %d reviewed, %d open), %d store sites (%d open), %d problems, %d rounds\n",
-		len(a.funcs), res.nodes, res.useTotal, res.useCert, res.useAllowed, res.useOpen, res.storeTotal, res.storeOpen, len(pk.problems), rounds)
-	fmt.Printf("nilgen: index %d (%d open), assert %d (%d open), conv %d (%d open), panic %d (%d open)\n",
-		res.indexTotal, res.indexOpen, res.assertTotal, res.assertOpen, res.convTotal, res.convOpen, res.panicTotal, res.panicOpen)
-	if *verbose {
-		for _, d := range a.demoted {
-			fmt.Println("not strict:", d)
-		}
-		var cs []string
-		for c := range pk.strict {
-			cs = append(cs, c)
-		}
-		sort.Strings(cs)
-		fmt.Println("strict classes:", strings.Join(cs, " "))
-		cs = nil
-		for c := range pk.dirty {
-			cs = append(cs, c)
-		}
-		sort.Strings(cs)
-		fmt.Println("dirty classes:", strings.Join(cs, " "))
-	}
-	if len(pk.problems) > 0 && *verbose {
-		for _, p := range pk.problems {
-			fmt.Println("problem:", p)
-		}
-	}
+	pruned = a.prune()
+	return rounds, pruned
 }
